@@ -66,6 +66,7 @@ func fewVariants() []vnt {
 // all; kept apart (kinds flagged multikey, own struct) so that the other structs
 // stay free of order effects
 var multiObj = map[string]any{"b": []any{true}, "k": 1, "a": map[string]any{"y": 1, "x": 2}, "z": nil}
+var extObj = map[string]any{"_format": nil, "_start": false, "_name": "own", "_len": nil, "_x": nil, "a": 1}
 
 // ---- scalar kinds --------------------------------------------------------------
 
@@ -311,6 +312,12 @@ func scalarKinds() []*kind {
 		{name: "anyobj2", nbits: 8, data: []byte{0x42}, actual: multiObj, multikey: true,
 			read: func(d *decode.D, n string, k *kind, v vnt) {
 				d.FieldAnyFn(n, func(d *decode.D) any { d.U8(); return dc(multiObj) }, anym(v)...)
+			}},
+		// an object whose own keys are named like fq's extra keys, with null / false values:
+		// the value's own member wins over the extra key, whatever its value
+		{name: "anyobjext", nbits: 8, data: []byte{0x43}, actual: extObj, multikey: true,
+			read: func(d *decode.D, n string, k *kind, v vnt) {
+				d.FieldAnyFn(n, func(d *decode.D) any { d.U8(); return dc(extObj) }, anym(v)...)
 			}},
 		{name: "symobj2", nbits: 8, data: []byte{9}, actual: multiObj, multikey: true,
 			read: func(d *decode.D, n string, k *kind, v vnt) { d.FieldU8(n, scalar.UintSym(dc(multiObj))) }},
